@@ -392,3 +392,35 @@ Proof.
   - intros Hsp. rewrite Hsp. eexists. split; reflexivity.
   - eexists. reflexivity.
 Qed.
+
+(* ---------- a savepoint whose copy fails is not published ---------- *)
+Lemma copy_files_missing (src dst : bytes -> uri) : (forall f g, src f <> dst g) ->
+  forall files fs f, In f files -> fs_read fs (src f) = None -> copy_all fs (map (fun f => (src f, dst f)) files) = None.
+Proof.
+  intros Hsd. induction files as [|g files IH]; intros fs f Hin Hmiss; [destruct Hin|]. cbn [map copy_all]. unfold fs_copy.
+  destruct (fs_read fs (src g)) as [c|] eqn:Hg; [|reflexivity].
+  destruct Hin as [->|Hin]; [congruence|].
+  apply (IH _ f Hin). rewrite read_write. rewrite uri_eqb_neq by apply Hsd. exact Hmiss.
+Qed.
+
+(* if, when the artifact is written, a file that the savepoint's checkpoint of some operator references is gone, NO
+   savepoint is produced (the job file is not copied to its savepoint name) - never an incomplete one *)
+Lemma sp_create_missing_lemma : forall ops fs id op cid l e f,
+  In (op, cid) ops ->
+  fs_read fs (UWork op ck_name) = Some (FCkList l) -> find (fun e => fst e =? cid) l = Some e -> In f (snd e) ->
+  fs_read fs (UWork op f) = None ->
+  sp_create true fs id ops = None.
+Proof.
+  intros ops fs id op cid l e f Hin Hck Hfind Hf Hmiss. unfold sp_create.
+  assert (H : sp_create_ops true fs id ops = None); [|rewrite H; reflexivity].
+  revert fs Hck Hmiss. induction ops as [|[op2 cid2] ops IH]; intros fs Hck Hmiss; [destruct Hin|]. cbn [sp_create_ops].
+  destruct Hin as [Heq|Hin].
+  - inversion Heq; subst. rewrite Hck. unfold list_files. rewrite Hfind.
+    rewrite (copy_files_missing (fun f => UWork op f) (fun f => USave id op f) ltac:(intros; discriminate) _ fs f); [reflexivity| |exact Hmiss].
+    apply in_or_app. left. exact Hf.
+  - destruct (fs_read fs (UWork op2 ck_name)) as [[|l2|]|]; try reflexivity.
+    destruct (list_files true l2 cid2) as [files|]; try reflexivity.
+    destruct (copy_all fs _) as [fs1|] eqn:Hc; [|reflexivity].
+    destruct (copy_files_spec (fun f => UWork op2 f) (fun f => USave id op2 f) ltac:(intros f0 g0 E; inversion E; reflexivity) ltac:(intros; discriminate) _ _ _ Hc) as [Ho _].
+    apply (IH Hin); rewrite Ho; try assumption; intros g _; discriminate.
+Qed.
